@@ -181,7 +181,7 @@ def crash_key(exc):
 
 
 class Outcome:
-    __slots__ = ("status", "detail", "line", "key", "nodes", "rewrites", "endbad", "colbad", "types")
+    __slots__ = ("status", "detail", "line", "key", "nodes", "rewrites", "endbad", "colbad", "types", "path", "values")
 
     def __init__(self, status, detail="", line=None, key=None):
         self.status = status  # equal | diff | lineno | reject | crash | resource
@@ -193,21 +193,24 @@ class Outcome:
         self.endbad = 0
         self.colbad = 0
         self.types = ()
+        self.path = ()
+        self.values = (None, None)
 
 
-def compare_trees(expected, got, py_for_lines=None):
+def compare_trees(expected, got):
     """expected: list of normalised CPython statements/expressions; got: Scenic's."""
     from rt import pynorm
 
     d = pynorm.first_diff(expected, got)
     if d is not None:
-        path, desc = d
+        path, desc, values = d
         line = None
         for n in reversed(path):
             if hasattr(n, "lineno"):
                 line = n.lineno
                 break
         o = Outcome("diff", desc, line)
+        o.path, o.values = path, values
         return o
     if pynorm.dump(expected) != pynorm.dump(got):  # the comparator and ast.dump must agree
         return Outcome("diff", "ast.dump differs although the field-wise comparison found nothing", None)
@@ -222,7 +225,8 @@ def compare_trees(expected, got, py_for_lines=None):
 
 
 def compare_module(src, py_tree=None, wrap_star=True, extract=None, expected_extract=None):
-    """Full comparison of a piece of source as a module (or, with extractors, of an embedded part)."""
+    """Full comparison of a piece of source as a module (or, with extractors, of an embedded part).
+    NB: py_tree is normalised in place."""
     from rt import pynorm
 
     kind, val = run_scenic(src)
@@ -253,7 +257,79 @@ def compare_module(src, py_tree=None, wrap_star=True, extract=None, expected_ext
 
 
 # ------------------------------------------------------------------------------------------------
-# classification
+# classification (mechanism keys are decided from the observed difference, never from a hash)
+
+_Q3 = ('"' * 3, "'" * 3)
+
+
+def _literal_decodes_to(raw, value):
+    """Is `value` what Python's string-literal escape processing makes of the raw text `raw`?"""
+    if "\\" not in raw:
+        return False
+    for q in _Q3:
+        if q in raw or raw.endswith(q[0]):
+            continue
+        try:
+            return ast.literal_eval(q + raw + q) == value
+        except Exception:
+            continue
+    return False
+
+
+def mechanism(o, py_tree):
+    """Narrow mechanism key for an unequal outcome, or None."""
+    if o.status == "crash":
+        return o.key
+    if o.status == "diff":
+        x, y = o.values
+        in_fstring = any(isinstance(n, ast.JoinedStr) for n in o.path)
+        if in_fstring and isinstance(x, str) and isinstance(y, str) and _literal_decodes_to(y, x):
+            return "fstring-literal-escapes-not-decoded"
+        if (
+            in_fstring
+            and isinstance(x, ast.Constant)
+            and isinstance(x.value, str)
+            and x.value.rstrip().endswith("=")
+            and isinstance(y, ast.FormattedValue)
+        ):
+            return "fstring-debug-specifier-text-dropped"
+        if in_fstring and isinstance(x, str) and isinstance(y, str) and x.startswith(y) and x.rstrip().endswith("="):
+            return "fstring-debug-specifier-text-dropped"
+        return None
+    if o.status == "reject" and py_tree is not None and o.line is not None:
+        from rt import pynorm
+
+        st = pynorm.innermost_stmt(py_tree, o.line)
+        if "invalid syntax" in o.detail and st is not None:
+            for n in ast.walk(st):
+                if isinstance(n, ast.IfExp) and isinstance(n.orelse, (ast.IfExp, ast.Lambda)):
+                    if n.lineno <= o.line <= n.end_lineno:
+                        return "conditional-expression-else-branch-restricted"
+        if '"additive"' in o.detail and st is not None:
+            for cls in ast.walk(py_tree):
+                if isinstance(cls, ast.ClassDef) and any(st is b for b in cls.body):
+                    tgt = None
+                    if isinstance(st, ast.Assign):
+                        tgt = st.targets[0]
+                    elif isinstance(st, (ast.AugAssign, ast.AnnAssign)):
+                        tgt = st.target
+                    elif isinstance(st, ast.Expr):
+                        tgt = st.value
+                    # leftmost primary: NAME '[' ...
+                    while True:
+                        if isinstance(tgt, ast.Subscript) and isinstance(tgt.value, ast.Name):
+                            return "class-body-subscript-forces-property-attribute"
+                        nxt = getattr(tgt, "value", None) if isinstance(tgt, (ast.Subscript, ast.Attribute)) else None
+                        if nxt is None and isinstance(tgt, ast.Call):
+                            nxt = tgt.func
+                        if nxt is None and isinstance(tgt, ast.BinOp):
+                            nxt = tgt.left
+                        if nxt is None and isinstance(tgt, ast.Compare):
+                            nxt = tgt.left
+                        if nxt is None:
+                            break
+                        tgt = nxt
+    return None
 
 
 def classify(o, src, py_tree, extra_text=""):
@@ -263,6 +339,7 @@ def classify(o, src, py_tree, extra_text=""):
     lines = src.split("\n")
     if o.status == "crash":
         return ("violation", o.key, f"internal exception on valid Python: {o.detail}")
+    key = mechanism(o, py_tree)
     text = extra_text
     if o.line is not None and py_tree is not None:
         st = pynorm.innermost_stmt(py_tree, o.line)
@@ -273,13 +350,13 @@ def classify(o, src, py_tree, extra_text=""):
     elif o.line is not None:
         text += "\n".join(lines[max(0, o.line - 2) : o.line + 1])
     soft = pynorm.soft_keywords_in(text) if text else set()
-    if soft and o.status in ("diff", "reject", "lineno"):
+    if soft and key is None:
         return ("ambiguity", sorted(soft)[0])
     if o.status == "reject":
-        return ("violation", None, f"valid Python rejected: {o.detail} (line {o.line})")
+        return ("violation", key, f"valid Python rejected: {o.detail} (line {o.line})")
     if o.status == "lineno":
-        return ("violation", None, f"line number not preserved: {o.detail}")
-    return ("violation", None, f"tree differs from CPython's: {o.detail} (line {o.line})")
+        return ("violation", key, f"line number not preserved: {o.detail}")
+    return ("violation", key, f"tree differs from CPython's: {o.detail} (line {o.line})")
 
 
 # ------------------------------------------------------------------------------------------------
@@ -328,40 +405,56 @@ def child_statements(st):
     return out
 
 
-def minimise(src, py_tree, signature, budget=60):
-    """Smallest statement of `src` that, parsed alone, still fails with the same signature
-    (status, key / first words of the detail).  Returns source text or None."""
-    lines = src.split("\n")
-
-    def sig_of(text):
-        try:
-            t = ast.parse(text)
-        except (SyntaxError, ValueError, RecursionError):
-            return None  # not meaningful on its own (return outside function is fine for ast.parse)
-        o = compare_module(text, t)
-        return (o.status, o.key, o.detail.split(" [")[0][:60] if o.status == "crash" else "")
-
-    best = None
-    level = whole_line_statements(py_tree.body, lines)
-    while level and budget > 0:
-        nxt = None
-        for st in level:
-            if isinstance(st, ast.ClassDef) and best is not None:
-                pass
-            text = stmt_text(st, lines, keep_position=False)
-            budget -= 1
-            if sig_of(text) == signature:
-                best = text
-                nxt = whole_line_statements(child_statements(st), lines)
-                break
-            if budget <= 0:
-                break
-        level = nxt
-    return best
-
-
 def signature(o):
-    return (o.status, o.key, o.detail.split(" [")[0][:60] if o.status == "crash" else "")
+    return (o.status, o.key, o.detail.split(" [")[0][:60] if o.status in ("crash", "reject") else "")
+
+
+def shrink(text, sig, budget):
+    """Descend into the statement(s) of `text` while a sub-statement, parsed alone (or, for class
+    bodies, alone under the class header), fails the same way.  Returns the smallest such text."""
+    best = text
+    while budget[0] > 0:
+        try:
+            tree = ast.parse(best)
+        except (SyntaxError, ValueError):
+            return best
+        lines = best.split("\n")
+        single = tree.body[0] if len(tree.body) == 1 else None
+        kids = []
+        for st in tree.body:
+            kids += child_statements(st)
+        cands = []
+        for st in whole_line_statements(kids, lines) if single is not None else whole_line_statements(tree.body, lines):
+            cands.append(stmt_text(st, lines, keep_position=False))
+        if isinstance(single, ast.ClassDef) and single.body:
+            # keep the class header: class-level context matters to Scenic
+            first_body = _first_line(single.body[0])
+            if first_body > single.lineno:
+                header = "\n".join(lines[: first_body - 1]) + "\n"
+                body = whole_line_statements(single.body, lines)
+                if len(body) > 1:
+                    for st in body:
+                        seg = "\n".join(lines[_first_line(st) - 1 : st.end_lineno]) + "\n"
+                        cands.append(header + seg)
+        found = None
+        for t in cands:
+            if t == best or len(t) >= len(best):
+                continue
+            budget[0] -= 1
+            try:
+                pt = ast.parse(t)
+            except (SyntaxError, ValueError):
+                continue
+            o = compare_module(t, pt)
+            if signature(o) == sig:
+                found = t
+                break
+            if budget[0] <= 0:
+                break
+        if found is None:
+            return best
+        best = found
+    return best
 
 
 # ------------------------------------------------------------------------------------------------
@@ -469,7 +562,7 @@ _NO_EMBED = (ast.Yield, ast.YieldFrom, ast.Await, ast.AsyncFunctionDef, ast.Asyn
 _TEMPORAL = {"always", "eventually", "next", "implies"}
 
 
-def pick_statements(py_tree, lines, rng, k, max_lines=60):
+def pick_statements(py_tree, lines, rng, k, max_lines=40):
     from rt import pynorm
 
     cands = []
@@ -573,6 +666,10 @@ def check_file(path, rng, res, tier, budget):
     if rb:
         skip("rebinds-scenic-builtin-name")
         return
+    if any(isinstance(n, ast.BinOp) and isinstance(n.op, ast.MatMult) for n in ast.walk(py_tree)):
+        # `X @ Y` is Scenic's documented vector syntax (reference/data.rst)
+        skip("uses-@-operator (Scenic vector syntax)")
+        return
     res["evaluations"] += 1
     bump("files_in_fragment")
     bump("bytes_in_fragment", len(src))
@@ -598,15 +695,13 @@ def check_file(path, rng, res, tier, budget):
         n_same = sum(1 for v in res["violations"] if v["key"] == key)
         if n_same >= (3 if key else 12):
             return True
-        if snippet is None and context == "module" and budget["minimise"] > 0:
-            budget["minimise"] -= 1
-            snippet = minimise(text, tree, signature(o))
         w = {"path": path, "context": context}
         if snippet is not None and len(snippet) < 6000:
             w["source"] = snippet
             if twin is not None:
                 w["python"] = twin
-        res["violations"].append({"key": key, "what": f"[{context}] {rel}: {what}"[:600], "witness": w})
+        shown = (snippet if snippet is not None else "").strip()[:200]
+        res["violations"].append({"key": key, "what": f"[{context}] {rel}: {what}"[:500] + (f" | input: {shown!r}" if shown else ""), "witness": w})
         return True
 
     def account(o):
@@ -617,13 +712,15 @@ def check_file(path, rng, res, tier, budget):
             bump("rewrites_" + k, v)
         res["_types"].update(o.types)
 
-    # ---- layer 1: the module itself
+    # ---- layer 1: the module itself (per top-level statement when that is not possible)
+    statement_mode = bool(ann)
+    whole = None
     if not ann:
         o = compare_module(src, py_tree)
-        py_tree = None  # normalised in place: re-parse when needed
+        py_tree = ast.parse(src)  # (normalised in place)
         if o.status == "equal":
             bump("files_equal")
-            bump("statements_equal", len(ast.parse(src).body))
+            bump("statements_equal", len(py_tree.body))
             account(o)
             if o.nodes >= 20:
                 res["nontrivial"].append(su.h([os.path.basename(path), len(src)]))
@@ -631,11 +728,16 @@ def check_file(path, rng, res, tier, budget):
                 res["samples"].append({"file": path, "bytes": len(src), "nodes": o.nodes, "rewrites": o.rewrites})
         else:
             bump("files_" + o.status)
-            report(o, src, ast.parse(src), "module")
+            whole = o
+            statement_mode = True
     else:
+        bump("files_with_class_level_annotations")
+    if statement_mode:
         bump("files_per_statement_mode")
-        okc = 0
-        for st in whole_line_statements(py_tree.body, lines):
+        okc = bad = 0
+        top = whole_line_statements(py_tree.body, lines)
+        skip("statement-shares-a-line", len(py_tree.body) - len(top))
+        for st in top:
             if pynorm.class_annotation_lines(st):
                 skip("class-level-annotation-statement")
                 continue
@@ -648,19 +750,27 @@ def check_file(path, rng, res, tier, budget):
             if o.status == "equal":
                 okc += 1
                 account(o)
-            else:
-                bump("statements_" + o.status)
-                report(o, text, ast.parse(text), "statement", snippet=stmt_text(st, lines, keep_position=False))
+                continue
+            bad += 1
+            bump("statements_" + o.status)
+            small = stmt_text(st, lines, keep_position=False)
+            if o.status != "resource" and budget["shrink"][0] > 0:
+                small = shrink(small, signature(o), budget["shrink"])
+            report(o, text, ast.parse(text), "statement", snippet=small)
         bump("statements_equal", okc)
-        if okc:
+        if okc >= 3:
             res["nontrivial"].append(su.h([os.path.basename(path), len(src)]))
+        if whole is not None and bad == 0:
+            # only visible with the whole file in view
+            report(whole, src, py_tree, "module")
     py_tree = ast.parse(src)
 
     # ---- layer 2: embedded in Scenic constructs
     kst = 6 if tier == "quick" else 8
     sts = pick_statements(py_tree, lines, rng, kst)
     texts = [stmt_text(st, lines, keep_position=False) for st in sts]
-    for context in BLOCK_CONTEXTS:
+    first_ctx = rng.randrange(len(BLOCK_CONTEXTS))
+    for context in (BLOCK_CONTEXTS[first_ctx], BLOCK_CONTEXTS[(first_ctx + 1 + rng.randrange(3)) % 4]):
         if not texts:
             break
         use = [t for t, st in zip(texts, sts)]
@@ -740,7 +850,7 @@ def _words(text):
 def run_shard(spec):
     rng = random.Random(spec["seed"] * 1000003 + spec["shard"])
     res = {"evaluations": 0, "nontrivial": [], "counters": {}, "samples": [], "violations": [], "skipped": {}, "_types": set()}
-    budget = {"minimise": 4}
+    budget = {"shrink": [150]}
     for path in spec["files"]:
         check_file(path, rng, res, spec["tier"], budget)
     types = sorted(res.pop("_types"))
